@@ -20,6 +20,7 @@ import YalafiVerif.Properties.PlainVanishStmt
 import YalafiVerif.Properties.PlainGroupStmt
 import YalafiVerif.Properties.PlainMixStmt
 import YalafiVerif.Properties.PlainMix2Stmt
+import YalafiVerif.Properties.PlainSkipStmt
 namespace Yalafi
 
 /-- tokens returned by `parser_work` (the main flow) are of output classes, whatever the text -/
